@@ -30,7 +30,7 @@ for out in sorted(glob.glob(os.path.join(src, "C??*.out"))):
         shutil.copy(os.path.join(out, f"demo{k}.py"), os.path.join(d, "demo.py"))
         meta = json.load(open(os.path.join(out, f"meta{k}.json")))
         meta["confirmed"] = line[0].split(" ", 1)[1]
-        meta["round"] = 2 if offset else 1
+        meta["round"] = {0: 1, 3: 2, 6: 3}.get(offset, 1 + offset // 3)
         meta["origin"] = "written by an independent sub-agent that saw only the property text and a scratch worktree"
         json.dump(meta, open(os.path.join(d, "meta.json"), "w"), indent=1)
         kept += 1
